@@ -114,6 +114,12 @@ def eq_term(a, b, ignore_private=True):
             return False
         r = (SymInt.lift(a) == b)
         return r.t if isinstance(r, SymBool) else bool(r)
+    from .strings import SymStr, lift as _lift_str, _eq_items
+    if isinstance(a, SymStr) or isinstance(b, SymStr):
+        la, lb = _lift_str(a), _lift_str(b)
+        if la is None or lb is None:
+            return False
+        return _eq_items(la, lb)
     if isinstance(a, (SymBytes, ShByteArray)) or isinstance(b, (SymBytes, ShByteArray)):
         la, lb = _lift_bytes(a), _lift_bytes(b)
         if la is None or lb is None:
@@ -245,6 +251,20 @@ class Sym:
             return b""
         return SymBytes([SymInt(z3.ZeroExt(1, t), 9, 0, 255) for t in terms])
 
+    def str(self, name, n, maxcp=0x10FFFF):
+        """text of n symbolic code points in 0..maxcp (surrogates excluded: not valid str content for codecs)"""
+        from .strings import SymStr
+        e = E.current()
+        name = e.fresh_name(name)
+        w = minwidth(0, maxcp)
+        terms = [z3.BitVec("%s[%d]" % (name, i), w) for i in range(n)]
+        e.inputs.append((name, "str", terms))
+        if n == 0:
+            return ""
+        for t in terms:
+            e.assume(z3.And(t >= 0, t <= maxcp, z3.Or(t < 0xD800, t > 0xDFFF)))
+        return SymStr([SymInt(t, w, 0, maxcp) for t in terms])
+
     def choice(self, name, options):
         """pick one of a few concrete options; forks (each option is a path)"""
         options = list(options)
@@ -326,6 +346,11 @@ class Conc:
             raise ReplayMismatch("length of %s" % name)
         return v
 
+    def str(self, name, n, maxcp=0x10FFFF):
+        name = self._name(name)
+        v = self._get(name, [32] * n)
+        return "".join(chr(c) for c in v)
+
     def choice(self, name, options):
         options = list(options)
         return options[self.int(name, 0, len(options) - 1)]
@@ -377,6 +402,9 @@ def model_value(m, v):
         return bool(z3.is_true(m.eval(v.t, model_completion=True)))
     if isinstance(v, (SymBytes, ShByteArray)):
         return bytes(model_value(m, b) for b in v.items)
+    from .strings import SymStr
+    if isinstance(v, SymStr):
+        return "".join(chr(model_value(m, c)) for c in v.items)
     if isinstance(v, SymFloat):
         import struct as _st
         r = m.eval(v.t, model_completion=True)
